@@ -314,6 +314,30 @@ def _run(plan, log, stats, violation):
                                    rng=np.random.default_rng(12), progress_bar=False)
         if not record("budget-equals-triples", {name_of(screen, int(k)): float(v) for k, v in out_exact.items()}):
             return
+        # (iii-e) fault alloc.failure: one call of the scoring kernel cannot get its work arrays (MemoryError).  Scoring may
+        # fail with it; scores that ARE returned must still be the direct estimator (no silently cheaper estimate)
+        if len(pids) >= 2 and srnd.random() < 0.5:
+            real_kernel = G.dbal_fast_gauss_scoring_vectorized
+            calls = [0]
+            fail_at = srnd.randint(1, 2)
+
+            def kernel(*a, **k):
+                calls[0] += 1
+                if calls[0] == fail_at:
+                    stats.fault("alloc.failure")
+                    raise MemoryError("Unable to allocate work arrays")
+                return real_kernel(*a, **k)
+
+            G.dbal_fast_gauss_scoring_vectorized = kernel
+            try:
+                got_af = scorer_scores(screen, thetas, D, pids, srnd.choice([1, 2]), 13)
+            except MemoryError:
+                got_af = None
+                stats.probe("scoring_failed_on_alloc_failure")
+            finally:
+                G.dbal_fast_gauss_scoring_vectorized = real_kernel
+            if got_af is not None and not record("alloc-failure", got_af):
+                return
         # (iv) permuted plate dict
         po = list(pids)
         srnd.shuffle(po)
